@@ -1,10 +1,13 @@
 import CanvasModel.Driver
 import CanvasModel.C11
 import CanvasModel.C11.Builder
+import CanvasModel.C11.Number
 /-!
 C11 model driver.
   P  <hexbytes|->                      byte-level ParseSVGPath model:  ok <data…> | err k cmd pos n | panic | fuel
   LX <hexbytes|->                      number lexer model:             <value> <len>
+  NUM <prec> <x> <hexbytes>            verdict in exact arithmetic on what num(x) printed: ok | bad reasons…
+  DEC <prec> <x> <hexbytes>            same for dec(x)
   STR <tol> <data…> | <tokens…>        L3: interpret the tokens of String() (cX nHEX f0 f1): every command must come back
   SVG <tol> <data…> | <tokens…>        L3: the tokens of ToSVG(): zero-length lines may be missing, radii may be swapped
   PDF <tol> <data…> | <tokens…>        L3: PDF operators (nHEX oNAME)
@@ -192,6 +195,14 @@ def handle : List String → Option String
     let toks ← ts.mapM svgTok?
     let expected := segsFrom (0.0, 0.0) (dropNullLines 1e-10 (0.0, 0.0) (degArcs cmds))
     pure (judge tol 0.0 expected (svgInterp (· + ·) (fun p c => 2.0 * p - c) 0.0 toks))
+  | ["NUM", prec, xh, h] => do
+    let x ← floatOfHex? xh
+    let b ← hexBytes? h
+    pure (checkPrinted (numBound (← prec.toNat?)) x b).show
+  | ["DEC", prec, xh, h] => do
+    let x ← floatOfHex? xh
+    let b ← hexBytes? h
+    pure (decShow (checkPrinted (decBound (← prec.toNat?)) x b) b)
   | "STR" :: tolS :: rest => do
     let tol ← floatOfHex? tolS
     let (ds, ts) := splitBar rest
